@@ -4,7 +4,14 @@ import json
 
 from .. import soups, contexts
 from ..engine import exc_key, exc_detail, ddmin, Result, hyp_run
-from ..treedump import dump, kind
+from ..treedump import dump as _full_dump, kind
+
+
+def dump(n, **kw):
+    # "the same nodes, positions and lengths": parsing-state fields are not part of the
+    # comparison (check_legacy_states looks at the math-mode flag where it matters)
+    kw.setdefault('state', False)
+    return _full_dump(n, **kw)
 
 ID = 'C16'
 LEVEL = 'exploration'
@@ -60,12 +67,13 @@ def norm(x):
 def attempt(fn):
     """('ok', value) | ('parse-error', what) | ('eos',) | ('exc', type)"""
     from pylatexenc.latexwalker import LatexWalkerParseError, LatexWalkerEndOfStream
+    from pylatexenc.latexnodes import LatexWalkerError
     try:
         return ('ok', fn())
-    except LatexWalkerParseError as e:
-        return ('parse-error', (getattr(e, 'error_type_info', None) or {}).get('what'))
     except LatexWalkerEndOfStream:
-        return ('eos',)
+        return ('parse-error', None)
+    except LatexWalkerError as e:        # any error of the library's own hierarchy is "it fails"
+        return ('parse-error', None)
     except Exception as e:
         return ('exc', type(e).__name__, str(e)[:100])
 
@@ -233,7 +241,7 @@ def check_single_variants(s, pos, res):
 
     def legacy_e():
         n, p, l = walker(s).get_latex_expression(pos, strict_braces=True)
-        return (norm(dump(n)), p, l)
+        return (clear_args_for_expression(norm(dump(n))), p, l)
 
     def new_e():
         w2 = walker(s)
@@ -376,7 +384,7 @@ def check_single_variants(s, pos, res):
         def new_t():
             w2 = walker(s)
             ps = w2.make_parsing_state(**sub) if sub else w2.make_parsing_state()
-            r = LatexTokenReader(s, tolerant_parsing=False)
+            r = LatexTokenReader(s, tolerant_parsing=_MODE['tolerant'])
             r.move_to_pos_chars(pos)
             return tk(r.peek_token(ps))
         a, b = attempt(legacy_t), attempt(new_t)
@@ -497,7 +505,7 @@ def check_spellings(argspec, res, env=False):
                 d = norm(dump(node, state=False))
                 argd = d.get('args') or {}
                 views = None
-                if not env:
+                if not env and hasattr(node, 'nodeoptarg') and hasattr(node, 'nodeargs'):
                     views = [norm(dump(node.nodeoptarg, state=False)),
                              [norm(dump(a, state=False)) for a in (node.nodeargs or [])]]
                 return {'pos': node.pos, 'pos_end': node.pos_end,
